@@ -14,7 +14,7 @@ import (
 // module is shared by every evaluation; the only such objects the library may keep are of types documented as
 // safe for concurrent use (compiled regular expressions, replacers, sync and atomic types, reflect types).
 func sharedObjectsRule(w *World, r *Report, rule string) {
-	r.rule(rule, "every package-level variable of the library whose type comes from outside the module (directly or behind a pointer) is of a type documented as safe for concurrent use - regexp.Regexp, strings.Replacer, reflect.Type, the types of sync and sync/atomic: no generator, buffer, scanner or encoder is kept at package level, where every evaluation would use it at once")
+	r.rule(rule, "every package-level variable of the library whose type comes from outside the module (directly or behind a pointer) is of a type documented as safe for concurrent use - regexp.Regexp, strings.Replacer, os.File, log.Logger, time.Location, embed.FS, the types of sync and sync/atomic (objects of struct types only; what an interface variable holds is not judged): no generator, buffer, scanner or encoder is kept at package level, where every evaluation would use it at once")
 	safe := func(t types.Type) (bool, string) {
 		if p, ok := t.Underlying().(*types.Pointer); ok {
 			t = p.Elem()
@@ -36,11 +36,11 @@ func sharedObjectsRule(w *World, r *Report, rule string) {
 		}
 		name := path + "." + nt.Obj().Name()
 		switch name {
-		case "regexp.Regexp", "strings.Replacer", "reflect.Type", "reflect.rtype", "embed.FS", "time.Location", "time.Duration", "context.Context":
+		case "regexp.Regexp", "strings.Replacer", "reflect.rtype", "embed.FS", "time.Location", "time.Time", "os.File", "log.Logger", "log/slog.Logger", "net/http.Client", "text/template.Template", "html/template.Template", "errors.errorString":
 			return true, ""
 		}
-		switch nt.Underlying().(type) {
-		case *types.Struct, *types.Interface:
+		// (what an interface variable holds is not told by its type: only objects of struct types are judged)
+		if _, isStruct := nt.Underlying().(*types.Struct); isStruct {
 			return false, name
 		}
 		return true, ""
@@ -176,6 +176,15 @@ func inputFilterRule(w *World, r *Report, rule string) {
 			k, isC := ret.Results[1].(*ssa.Const)
 			if isC && k.Value != nil && k.Value.Kind() == constant.Bool && constant.BoolVal(k.Value) {
 				continue // the rune is kept
+			}
+			// `return r, r != ctrl`: kept unless it is that control character
+			if bo, isB := ret.Results[1].(*ssa.BinOp); isB && bo.Op == token.NEQ && bo.X == ssa.Value(p) {
+				if kc, isK := bo.Y.(*ssa.Const); isK && kc.Value != nil && kc.Value.Kind() == constant.Int {
+					if v, exact := constant.Int64Val(kc.Value); exact && (v < 0x20 || v == 0x7f) {
+						r.ok(rule, fn, "rejection of a rune by "+fn.Name(), ret.Pos(), "only for a control character")
+						continue
+					}
+				}
 			}
 			// a rejection (or an answer not known to keep the rune): every way here is the true edge of r == control character
 			okAll := len(b.Preds) > 0 && isC
